@@ -39,7 +39,7 @@ def sq(k):
 class KU:
     def __init__(self, name, call, props, quick, thorough=None, unwind="N+2", profile="debug",
                  expect=PASS, features=(), attrs=(), fn="", shape="", backend="kani-harness",
-                 contracts=False, kind="proof", timeout="15m"):
+                 contracts=False, kind="proof", timeout="15m", needs=()):
         self.name = name
         self.call = call
         self.props = props
@@ -56,6 +56,7 @@ class KU:
         self.contracts = contracts
         self.kind = kind
         self.timeout = timeout
+        self.needs = list(needs)
 
     def params(self, tier):
         return self.thorough if tier == "thorough" else self.quick
@@ -150,7 +151,7 @@ for w, P, nm in ((False, ["C02"], "own"), (True, ["C04"], "unw")):
     add("%s_retain" % nm, "life::h_retain::<{N}>(%s)" % ws, P, Q3, T3, fn="Map::retain", shape="S_tok")
     add("%s_clear" % nm, "life::h_clear::<{N}>(%s)" % ws, P, Q3, T3, fn="Map::clear", shape="S_tok")
     add("%s_drain" % nm, "life::h_drain::<{N}>(%s)" % ws, P + ["C10"], Q3, T3, profile="both", fn="Map::drain, Drain::next, Drain::drop", shape="S_tok")
-    add("%s_clone" % nm, "life::h_clone::<{N}>(%s)" % ws, P + ["C15"], Q3, T3, fn="Clone::clone for Map", shape="S_tok")
+    add("%s_clone" % nm, "life::h_clone::<{N}>(%s)" % ws, P + ["C15"], Q3, T3, fn="Clone::clone for Map", shape="S_tok", needs=["hook:clone-local"] if w else [])
     add("%s_eq" % nm, "life::h_eq::<{N}, {M}>(%s)" % ws, P, NM([(0, 0), (1, 1), (2, 1), (2, 2)]), NM([(1, 2), (2, 2), (3, 2), (3, 3)]),
         unwind="max(N,M)+2", fn="PartialEq::eq for Map", shape="S_tok")
     for i, op in enumerate(("or_insert", "or_insert_with", "or_insert_with_key", "and_modify_or_insert",
@@ -158,7 +159,7 @@ for w, P, nm in ((False, ["C02"], "own"), (True, ["C04"], "unw")):
         add("%s_entry_%s" % (nm, op), "life::h_entry::<{N}>(%d, %s)" % (i, ws), P, N_(1, 2), N_(1, 2, 3), fn="Map::entry / Entry::" + op, shape="S_tok")
     for i, op in enumerate(("insert", "replace", "remove", "take", "retain", "clear", "contains_get", "drain", "clone")):
         add("%s_set_%s" % (nm, op), "life::h_set::<{N}>(%d, %s)" % (i, ws), P, N_(1, 2) if i < 2 else Q3, N_(1, 2, 3) if i < 2 else T3,
-            fn="Set::" + op, shape="S_tok (sets)")
+            fn="Set::" + op, shape="S_tok (sets)", needs=["hook:clone-local"] if (w and op == "clone") else [])
 for i, op in enumerate(("into_iter", "into_keys", "into_values")):
     add("own_" + op, "life::h_into_iter::<{N}>(%d)" % i, ["C02", "C10"], Q3, T3, fn="Map::%s, IntoIter::next, drop" % op, shape="S_tok")
 add("own_drop", "life::h_drop::<{N}>()", ["C02"], Q3, T3, fn="Drop::drop for Map", shape="S_tok")
